@@ -320,7 +320,9 @@ impl<T: Storage> RaftLog<T> {
     #[deprecated = "Call raft::commit_apply(idx) instead. Joint Consensus requires an on-apply hook to
     finalize a configuration change. This will become internal API in future versions."]
     pub fn applied_to(&mut self, idx: u64) {
-        if idx == 0 {
+        if idx == 0 || idx == self.applied {
+            // Nothing new is reported. After a restart `applied` may still be ahead of
+            // `committed` (see the note on the field), so this must not be checked below.
             return;
         }
         // NOTE: here we must use `commmitted` instead of `min(committed, perssited + max_apply_unpersisted_log_limit)`
